@@ -304,8 +304,12 @@ fn main() {
                     results.push(h.join().unwrap_or_default());
                 }
             });
-            let out = std::io::stdout();
-            let mut w = BufWriter::new(out.lock());
+            // `run --out <file>`: the answers go to a file of their own, so that anything the crate under test prints on
+            // stdout cannot shift them against the requests
+            let mut w: Box<dyn Write> = match args.iter().position(|a| a == "--out").and_then(|i| args.get(i + 1)) {
+                Some(path) => Box::new(BufWriter::new(std::fs::File::create(path).expect("answer file"))),
+                None => Box::new(BufWriter::new(std::io::stdout())),
+            };
             #[cfg(decstr_verif)]
             hooks::summary(&results);
             for r in results {
@@ -313,6 +317,7 @@ fn main() {
                     writeln!(w, "{}", l).unwrap();
                 }
             }
+            w.flush().unwrap();
         }
         Some("gen") => {
             let prop = &args[2];
